@@ -87,8 +87,8 @@ def aggregate_local_results(scenario, gcID):
 
     if scenario.core_standing_time:
         json_results["core_standing_time"] = {
-            "times": scenario.core_standing_time['times'],
-            "no_drive_days": scenario.core_standing_time['no_drive_days'],
+            "times": scenario.core_standing_time.get('times', []),
+            "no_drive_days": scenario.core_standing_time.get('no_drive_days', []),
             "unit": "h",
             "info": "Core standing time: start time, end time, duration"
         }
